@@ -251,6 +251,10 @@ def run(s):
         s.notes["sympy_derivation_vs_mpmath_max_rel_dev"] = dev
         if dev > 1e-30:
             s.crashed.append(("spec-derivation", "sympy derivation deviates from mpmath by %g" % dev))
+    if s.tier == "thorough":
+        from vf import lean
+        s.oblige("C01.lemmas.FiniteSums(lean)", lambda: lean.check_file("lemmas/FiniteSums.lean"), ["lemmas/FiniteSums.lean (sum rules: linearity, congruence, combination, "
+                                                                                                     "positivity, permutation, weight scaling)"])
     s.min_obligations = 30
 
 
